@@ -63,6 +63,13 @@ NoOpJudged == {"DAA", "DAS", "AAA", "AAS", "NOP", "WAIT", "SAHF", "LAHF", "RET",
                "IRET", "IRETD", "CLTS", "INVD", "WBINVD", "UD2", "WRMSR", "RDTSC", "RDMSR", "RDPMC", "SYSENTER",
                "SYSEXIT", "SYSCALL", "SYSRET", "EMMS", "CPUID", "RSM", "SETALC", "ICEBP"}
 
+DescTable == {"LGDT", "LIDT", "SGDT", "SIDT"}
+Take3(st) == SubSeq(st, 1, 3)
+Drop3(st) == SubSeq(st, 4, Len(st))
+SetCC(mn) == Len(mn) > 3 /\ Take3(mn) = "SET" /\ CCOf("J" \o Drop3(mn)) # -1
+\* the second opcode byte of a 0F B6/B7/BE/BF instruction says whether the source is a byte (even) or a word (odd)
+SrcByteOp(bytes, bits) == LET np == NPrefix(bytes) IN Len(bytes) >= np + 2 /\ bytes[np + 2] % 2 = 0
+
 ShiftSame(a, b) == a = b \/ {a, b} = {"SHL", "SAL"}
 
 PushImmOK(b, v) == \/ SignExt(b, 4) = LE(v, 4)
@@ -85,7 +92,11 @@ Judged(s) ==
         \/ mn \in {"IN", "OUT"} /\ k = 2
         \/ mn = "INT" /\ k = 1
         \/ mn \in {"RET", "RETN", "RETF"} /\ k \in {0, 1}
-        \/ mn = "LGDT" /\ k = 1
+        \/ mn \in DescTable /\ k = 1
+        \/ mn \in {"XCHG", "LEA", "LDS", "LES", "LSS", "LFS", "LGS", "MOVZX", "MOVSX", "ENTER"} /\ k = 2
+        \/ mn \in {"LLDT", "LTR", "VERR", "VERW", "LMSW", "SLDT", "STR", "SMSW", "INVLPG", "BSWAP"} /\ k = 1
+        \/ SetCC(mn) /\ k = 1
+        \/ mn \in {"JMP", "CALL"} /\ k = 1 /\ s.ops[1].t \in {"r", "m"}
         \/ k = 0 /\ (mn \in NoOpJudged \/ FixedBytes(mn) # << >>)
   IN (\A j \in 1..k : s.ops[j].t # "txt") /\ forms      \* string / character operands: outside the model
 
@@ -161,20 +172,55 @@ Denotes(bytes, s, bits, V(_)) ==
             /\ d.mn = (IF mn = "RETF" THEN "RETF" ELSE "RET")
             /\ \/ Len(d.ops) = 1 /\ d.ops[1].b = LE(V(o[1]), 2)
                \/ Len(d.ops) = 0 /\ V(o[1]) = 0             \* RET 0 releases nothing: same as RET
-       [] mn = "LGDT" /\ k = 1 -> d.mn = "LGDT" /\ OpEq(d.ops[1], o[1], V)
+       [] mn \in DescTable /\ k = 1 -> d.mn = mn /\ o[1].t = "m" /\ OpEq(d.ops[1], o[1], V)
+       \* --- forms gosk does not implement yet (it reports them); judged as soon as it emits bytes for them silently
+       [] mn = "XCHG" /\ k = 2 ->
+            \/ /\ d.mn = "XCHG" /\ Len(d.ops) = 2 /\ WOK /\ sw # -1 /\ (o[1].t = "r" \/ o[2].t = "r")
+               /\ \/ OpEq(d.ops[1], o[1], V) /\ OpEq(d.ops[2], o[2], V)
+                  \/ OpEq(d.ops[1], o[2], V) /\ OpEq(d.ops[2], o[1], V)
+            \/ d.mn = "NOP" /\ o[1].t = "r" /\ o[1] = o[2] /\ o[1].n = 0 /\ o[1].w \in {16, 32}      \* XCHG (E)AX,(E)AX is the encoding of NOP
+       [] mn \in {"LEA", "LDS", "LES", "LSS", "LFS", "LGS"} /\ k = 2 ->
+            /\ d.mn = mn /\ Len(d.ops) = 2 /\ o[1].t = "r" /\ o[1].w \in {16, 32} /\ o[2].t = "m"
+            /\ d.ops[1] = R(o[1].w, o[1].n) /\ d.w = o[1].w /\ EAMatch(d.ops[2], o[2], V(o[2]))
+       [] mn \in {"LLDT", "LTR", "VERR", "VERW", "LMSW"} /\ k = 1 ->
+            /\ d.mn = mn /\ Len(d.ops) = 1
+            /\ IF o[1].t = "r" THEN o[1].w = 16 /\ d.ops[1] = R(16, o[1].n) ELSE o[1].t = "m" /\ o[1].w \in {0, 16} /\ OpEq(d.ops[1], o[1], V)
+       [] mn \in {"SLDT", "STR", "SMSW"} /\ k = 1 ->
+            /\ d.mn = mn /\ Len(d.ops) = 1
+            /\ IF o[1].t = "r" THEN o[1].w \in {16, 32} /\ d.ops[1] = R(o[1].w, o[1].n) ELSE o[1].t = "m" /\ o[1].w \in {0, 16} /\ OpEq(d.ops[1], o[1], V)
+       [] mn = "INVLPG" /\ k = 1 -> d.mn = mn /\ o[1].t = "m" /\ OpEq(d.ops[1], o[1], V)
+       [] mn \in {"MOVZX", "MOVSX"} /\ k = 2 ->      \* the source width must be stated: a register or a size keyword
+            /\ d.mn = mn /\ Len(d.ops) = 2 /\ o[1].t = "r" /\ o[1].w \in {16, 32} /\ d.ops[1] = R(o[1].w, o[1].n) /\ d.w = o[1].w
+            /\ o[2].t \in {"r", "m"} /\ o[2].w \in {8, 16} /\ o[2].w < o[1].w
+            /\ IF o[2].t = "r" THEN d.ops[2] = R(o[2].w, o[2].n)
+               ELSE OpEq(d.ops[2], o[2], V) /\ SrcByteOp(bytes, bits) = (o[2].w = 8)
+       [] SetCC(mn) /\ k = 1 ->
+            /\ Len(d.mn) > 3 /\ Take3(d.mn) = "SET" /\ CCOf("J" \o Drop3(d.mn)) = CCOf("J" \o Drop3(mn)) /\ Len(d.ops) = 1
+            /\ IF o[1].t = "r" THEN o[1].w = 8 /\ d.ops[1] = R(8, o[1].n) ELSE o[1].t = "m" /\ o[1].w \in {0, 8} /\ OpEq(d.ops[1], o[1], V)
+       [] mn = "BSWAP" /\ k = 1 -> d.mn = mn /\ o[1].t = "r" /\ o[1].w = 32 /\ d.ops = <<R(32, o[1].n)>>
+       [] mn = "ENTER" /\ k = 2 ->
+            /\ d.mn = mn /\ Len(d.ops) = 2 /\ o[1].t \in {"i", "l"} /\ o[2].t \in {"i", "l"}
+            /\ V(o[1]) \in 0..65535 /\ V(o[2]) \in 0..255 /\ d.ops[1].b = LE(V(o[1]), 2) /\ d.ops[2].b = LE(V(o[2]), 1)
+       [] mn \in {"JMP", "CALL"} /\ k = 1 /\ o[1].t \in {"r", "m"} ->     \* indirect near transfer through a register or a memory word
+            /\ d.mn = (IF mn = "JMP" THEN "JMPIND" ELSE "CALLIND") /\ Len(d.ops) = 1
+            /\ IF o[1].t = "r" THEN o[1].w \in {16, 32} /\ d.ops[1] = R(o[1].w, o[1].n) /\ d.w = o[1].w
+               ELSE OpEq(d.ops[1], o[1], V) /\ (IF o[1].w # 0 THEN d.w = o[1].w ELSE d.w = bits)
        [] OTHER -> FALSE
 
 (***************************************************************************)
 (* Relative branches.  a = address of the first byte of the branch,        *)
 (* tgt = address of the target.                                            *)
 (***************************************************************************)
-BranchMn(mn) == mn \in {"JMP", "CALL"} \/ CCOf(mn) # -1
+IsLoopMn(mn) == mn \in {"LOOP", "LOOPE", "LOOPZ", "LOOPNE", "LOOPNZ", "JCXZ", "JECXZ"}
+LoopCanon(mn) == CASE mn \in {"LOOPZ", "LOOPE"} -> "LOOPE" [] mn \in {"LOOPNZ", "LOOPNE"} -> "LOOPNE" [] OTHER -> mn
+BranchMn(mn) == mn \in {"JMP", "CALL"} \/ CCOf(mn) # -1 \/ IsLoopMn(mn)
 
 BranchDenotes(bytes, mn, a, tgt, bits) ==
   LET d == Decode(bytes, bits) IN
   /\ d.ok /\ d.len = Len(bytes) /\ Len(d.ops) = 1 /\ d.ops[1].t = "rel"
   /\ IF mn \in {"JMP", "CALL"} THEN d.mn = mn
-     ELSE /\ Len(d.mn) > 1 /\ CCOf(d.mn) = CCOf(mn)
+     ELSE IF IsLoopMn(mn) THEN d.mn = LoopCanon(mn)          \* (JCXZ / JECXZ: the decoder names it by the address size in force)
+     ELSE /\ Len(d.mn) > 1 /\ ~IsLoopMn(d.mn) /\ CCOf(d.mn) = CCOf(mn)
   /\ LET land == a + d.len + d.ops[1].v IN
      IF d.w = 16 /\ bits = 16 THEN (land - tgt) % 65536 = 0      \* IP wraps at 64 KiB with 16-bit operand size
      ELSE IF d.w = 16 THEN (land % 65536) = tgt                    \* 66-prefixed in 32-bit code: EIP truncated
